@@ -22,12 +22,15 @@ RULE = (
     "invalid requests (foreign module, no referent, the same symbol twice, control flow into data). Per case the "
     "module after apply() against the Lean model (expressions with symbol, addend, attributes; CFI; symbolForwarding; "
     "the edge set), and the output CFG against the flat-CFG specification"
+    "; ARM64 (fixed-width instructions: the expression sits at the first byte of its instruction): a block of 0-3 ordinary instructions and `adr` "
+    "references followed by `bl A` / `b A` / `b.ne A` / `cbz x0, A`, not first in its byte interval, B internal or external, PIE or not, judged "
+    "directly: exactly that instruction's edge moves, every expression naming A names B with its addend, the transfer's operand keeps its attributes"
     "; transfers through memory ('call *A(%rip)', 'jmp *A(%rip)') with data words, code labels and externals as A; a refusal 'control flow into a data block' is judged against the edges that would really move; retargeting combined with delete_symbol of the old symbol"
 )
 ASSUMPTIONS = [
     "how an operand is used (control flow / code reference / data) and which block holds it are determined by the harness with capstone and the block geometry and handed to the model",
     "SymAddrAddr expressions mentioning a retargeted symbol are refused by the code (NotImplementedError); the model refuses too",
-    "ARM64 / IA32 / MIPS rule tables are regenerated and proved about in C16/C17's translator only for registers; here the x86-64 ELF rule table is read from the live ABI object on every run and handed to the model",
+    "the x86-64 ELF rule table is read from the live ABI object on every run and handed to the model (correspondence); the oracle judges attributes with the psABI's table written down in the runner (spec_rules), so a changed table in abi.py shows as wrong attributes on a concrete input",
 ]
 TRUSTED = ["harness/emodify.py, harness/irdump.py, capstone"]
 
@@ -45,6 +48,22 @@ def rules_of(m):
                     "external": sorted(irdump.ATTRS[a] for a in r.external_attrs),
                     "access": sorted(acc[a] for a in r.access_types)})
     return out
+
+
+def spec_rules(pie, elf=True):
+    """the x86-64 ELF conversion table as the psABI has it, written down here independently of abi.py (access 0 = control
+    flow, 1 = reference from code, 2 = data): position-independent code reaches an external through the PLT when it
+    transfers control and through the GOT, pc-relative, when it references it; position-dependent code reaches it through
+    the PLT from code; a data word carries no such attribute"""
+    import gtirb
+
+    at = gtirb.SymbolicExpression.Attribute
+    if not elf:
+        return []           # PE: imports are reached through the import table, no attribute stands for that
+    if pie:
+        return [{"internal": [], "external": sorted([irdump.ATTRS[at.GOT], irdump.ATTRS[at.PCREL]]), "access": [1]},
+                {"internal": [], "external": [irdump.ATTRS[at.PLT]], "access": [0]}]
+    return [{"internal": [], "external": [irdump.ATTRS[at.PLT]], "access": [0, 1]}]
 
 
 def model_input(dump, fwd, insns):
@@ -193,14 +212,17 @@ def check_case(ctx, g, pending):
     pre = irdump.dump_ir(m, idm)
     insns = emodify.decode_insns(pre)
     rules = rules_of(m)
-    # give external uses the external attributes of the matching rule
+    srules = spec_rules(case.get("binary_type") == ["DYN"], case.get("ff", "ELF") == "ELF")
+    if sorted(json.dumps(r, sort_keys=True) for r in rules) != sorted(json.dumps(r, sort_keys=True) for r in srules):
+        ctx.count("live-rule-table-differs-from-the-psABI-table")
+    # give external uses the external attributes of the matching rule (the psABI's, not the code's)
     mi = model_input(pre, [], insns)
     inv_attr = {v: k for k, v in irdump.ATTRS.items()}
     ivobj = {idm.of(bi): bi for bi in m.byte_intervals}
     refs = dict((r[0], r[1]) for r in mi["refs"])
     for e in mi["exprs"]:
         if not e["addraddr"] and refs.get(e["syms"][0]) and refs[e["syms"][0]][0] == "p":
-            r = [x for x in rules if e["access"] in x["access"]]
+            r = [x for x in srules if e["access"] in x["access"]]
             if r:
                 ex = ivobj[e["interval"]].symbolic_expressions[e["off"]]
                 ivobj[e["interval"]].symbolic_expressions[e["off"]] = gtirb.SymAddrConst(ex.offset, ex.symbol, {inv_attr[a] for a in r[0]["external"]})
@@ -275,7 +297,7 @@ def check_case(ctx, g, pending):
     fwd1 = sorted([idm.of(a), idm.of(b)] for a, b in (A.symbol_forwarding.get(m) or {}).items())
     ctx.count("refused:" + err.split(":")[0] if err else "applied")
     mapping = sorted([idm.of(B.sym[a]), idm.of(B.sym[b])] for a, b in eff.items())
-    reqs = [{"op": "retarget", "mod": model_input(before, fwd0, emodify.decode_insns(before)), "rules": rules, "map": mapping}]
+    reqs = [{"op": "retarget", "mod": model_input(before, fwd0, emodify.decode_insns(before)), "rules": rules, "spec_rules": srules, "map": mapping}]
     if not err:
         reqs.append({"op": "cfg_check", "ir": after, "insns": emodify.decode_insns(after), "nop": [0x90],
                      "old_proxies": after["proxies"], "proxy_deletion": False})
@@ -350,7 +372,7 @@ def flush(ctx, pending):
                 continue
             old_def = kind.get(o["syms"][0]) in ("c", "d")
             new_def = kind.get(rmap[o["syms"][0]]) in ("c", "d")
-            match = [r for r in reqs[0]["rules"] if o["access"] in r["access"] and sorted(o["attrs"]) == sorted(r["internal" if old_def else "external"])]
+            match = [r for r in reqs[0].get("spec_rules", reqs[0]["rules"]) if o["access"] in r["access"] and sorted(o["attrs"]) == sorted(r["internal" if old_def else "external"])]
             want = sorted(o["attrs"]) if not match else sorted(match[0]["internal" if new_def else "external"])
             if len(match) <= 1 and sorted(e["attrs"]) != want:
                 ctx.violation("C18:expression-attributes", "expression at +%d (old symbol %s, new symbol %s): attributes %s, the ABI rule gives %s"
@@ -450,9 +472,97 @@ def check_with_deletion(ctx, g):
                       % (case["edits"], [getattr(e.target, "address", None) for e in calls], getattr(newref, "address", None)), payload)
 
 
+# ---------------------------------------------------------------------------
+# fixed-width ISA (ARM64): the symbolic expression sits at the first byte of its instruction
+# ---------------------------------------------------------------------------
+A64 = {"mov": "e00301aa", "nop": "1f2003d5", "ret": "c0035fd6", "bl": "00000094", "b": "00000014", "b.ne": "01000054",
+       "cbz": "000000b4", "adr": "01000010"}
+
+
+def gen_fixed_width(rng):
+    """a block of 0-3 ordinary instructions, possibly an `adr x1, <sym>` among them, then one transfer whose operand is A"""
+    prefix = [rng.choice(["mov", "nop", "adr"]) for _ in range(rng.randint(0, 3))]
+    return {"fixed_width": True, "prefix": prefix, "adr_syms": [rng.choice(["A", "other"]) for x in prefix if x == "adr"],
+            "insn": rng.choice(["bl", "b", "b.ne", "cbz"]), "extern": rng.random() < 0.5, "pie": rng.random() < 0.5,
+            "lead": rng.choice([0, 0, 1, 2])}
+
+
+def check_fixed_width(ctx, g):
+    import gtirb
+    from gtirb_test_helpers import add_code_block, add_edge, add_proxy_block, add_symbol, add_text_section, create_test_module
+    from gtirb_rewriting import RewritingContext
+
+    ctx.case(g, nontrivial=True)
+    ctx.count("fixed-width:" + g["insn"])
+    ET = gtirb.EdgeType
+    ir, m = create_test_module(gtirb.Module.FileFormat.ELF, gtirb.Module.ISA.ARM64, binary_type=["DYN"] if g["pie"] else ["EXEC"])
+    _, bi = add_text_section(m, address=0x1000)
+    sa, sb, so = add_symbol(m, "A"), add_symbol(m, "B"), add_symbol(m, "other")
+    for _ in range(g["lead"]):
+        add_code_block(bi, bytes.fromhex(A64["nop"]))          # the user block is not first in its interval
+    body, exprs, adr = b"", {}, list(g["adr_syms"])
+    for x in g["prefix"]:
+        if x == "adr":
+            exprs[(len(body), 4)] = gtirb.SymAddrConst(0, sa if adr.pop(0) == "A" else so)
+        body += bytes.fromhex(A64[x])
+    toff = len(body)
+    exprs[(toff, 4)] = gtirb.SymAddrConst(0, sa)
+    user = add_code_block(bi, body + bytes.fromhex(A64[g["insn"]]), exprs)
+    after = add_code_block(bi, bytes.fromhex(A64["ret"]))
+    by = add_code_block(bi, bytes.fromhex(A64["mov"] + A64["bl"]), {(4, 4): gtirb.SymAddrConst(0, so)})
+    by_after = add_code_block(bi, bytes.fromhex(A64["ret"]))
+    blk_a = add_code_block(bi, bytes.fromhex(A64["ret"]))
+    blk_o = add_code_block(bi, bytes.fromhex(A64["ret"]))
+    sa.referent, so.referent = blk_a, blk_o
+    new_ref = add_proxy_block(m) if g["extern"] else add_code_block(bi, bytes.fromhex(A64["ret"]))
+    sb.referent = new_ref
+    kind = ET.Call if g["insn"] == "bl" else ET.Branch
+    cond = g["insn"] in ("b.ne", "cbz")
+    add_edge(ir.cfg, user, blk_a, kind, conditional=cond)
+    if g["insn"] != "b":
+        add_edge(ir.cfg, user, after, ET.Fallthrough)
+    add_edge(ir.cfg, by, blk_o, ET.Call)
+    add_edge(ir.cfg, by, by_after, ET.Fallthrough)
+
+    def edges():
+        return sorted((id(e.source), id(e.target), e.label.type.name, bool(e.label.conditional), bool(e.label.direct)) for e in ir.cfg)
+
+    before = edges()
+    before_exprs = {k: (v.symbol.name, v.offset, sorted(a.name for a in v.attributes)) for k, v in bi.symbolic_expressions.items()}
+    try:
+        c = RewritingContext(m, [])
+        c.retarget_symbol_uses(sa, sb)
+        c.apply()
+    except Exception as e:  # noqa: BLE001
+        ctx.violation("C18:fixed-width-raises", "ARM64 retarget of a %s operand raised %s: %s" % (g["insn"], type(e).__name__, str(e)[:120]), g)
+        return
+    # exactly the edge of the instruction whose operand was A moves to B's referent
+    want = sorted((s_, id(new_ref) if (t == id(blk_a) and s_ == id(user) and ty == kind.name) else t, ty, cd, dr) for s_, t, ty, cd, dr in before)
+    got = edges()
+    if got != want:
+        ctx.violation("C18:fixed-width-edges", "ARM64 `%s A` at offset %d of its block (B %s): the edges after the retarget are not the old ones with that "
+                      "instruction's edge moved to B" % (g["insn"], toff, "external" if g["extern"] else "internal"), g)
+    # every expression that named A names B, same addend; the transfer's operand keeps its attributes (ARM64 has no rule for control flow)
+    for k, (name, add, attrs) in before_exprs.items():
+        e = bi.symbolic_expressions.get(k)
+        if e is None or not isinstance(e, gtirb.SymAddrConst):
+            ctx.violation("C18:fixed-width-expr", "the expression at %d disappeared" % k, g)
+            continue
+        wname = "B" if name == "A" else name
+        if e.symbol.name != wname or e.offset != add:
+            ctx.violation("C18:fixed-width-expr", "the expression at %d is %s+%d, expected %s+%d" % (k, e.symbol.name, e.offset, wname, add), g)
+        nattrs = sorted(a.name for a in e.attributes)
+        if k == user.offset + toff and nattrs != attrs:
+            ctx.violation("C18:fixed-width-attrs", "the operand of `%s` got the attributes %s (a control-flow operand has none to convert on ARM64)" % (g["insn"], nattrs), g)
+        if name != "A" and nattrs != attrs:
+            ctx.violation("C18:fixed-width-attrs", "an expression that does not mention A changed its attributes to %s" % (nattrs,), g)
+
+
 def run(ctx):
     for _ in range(ctx.budget(40, 800)):
         check_with_deletion(ctx, gen_with_deletion(ctx.rng))
+    for _ in range(ctx.budget(150, 3000)):
+        check_fixed_width(ctx, gen_fixed_width(ctx.rng))
     pending = []
     for _ in range(ctx.budget(1000, 25000)):
         check_case(ctx, gen(ctx.rng), pending)
@@ -463,6 +573,9 @@ def run(ctx):
 
 def replay(ctx, payload):
     inner = payload.get("case", payload)
+    if isinstance(inner, dict) and inner.get("fixed_width"):
+        check_fixed_width(ctx, inner)
+        return
     if isinstance(inner, dict) and inner.get("with_deletion"):
         check_with_deletion(ctx, inner)
         return
